@@ -214,7 +214,7 @@ package bytesconv
 //@   ghostset after append#1: qpos[rangeindex + 2] = len(result) - len(old(dst))
 //@   ghostset after append#2: qpos[rangeindex + 2] = len(result) - len(old(dst))
 //@   ensures extends(r, dst) && spareOnly(dst)
-//@   top-ensures @C17 !sameArray(dst, src) ==> qn == len(src) && forallT(k, 0, qn, qx[k], qx[k] == old(src[k])) && isArgEncoding(r[len(dst):])
+//@   ensures @C17 !sameArray(dst, src) ==> qn == len(src) && forallT(k, 0, qn, qx[k], qx[k] == old(src[k])) && isArgEncoding(r[len(dst):])
 //@   loop 0:
 //@     invariant -1 <= rangeindex && rangeindex < len(src)
 //@     invariant extends(dst, old(dst)) && spareOnly(old(dst))
